@@ -938,3 +938,13 @@ def run(ctx, out):
     # whole-daemon family (framework owner): see vlib/xdiff.py
     from vlib import xdiff
     xdiff.segmentation(ctx, out)
+    from vlib import dcheck, directed
+    comp = dict(out.coverage)
+    dcheck.run_property(ctx, out, "C09", None, n_quick=0, n_thorough=0, gen_kw={}, directed=directed.split_upgrade_interleaved())
+    for k in list(out.coverage):
+        if k not in comp or out.coverage[k] != comp[k]:
+            out.coverage["daemon_directed_" + k] = out.coverage[k]
+            if k in comp:
+                out.coverage[k] = comp[k]
+            else:
+                del out.coverage[k]
